@@ -134,6 +134,9 @@ impl Check for C06 {
     fn assumptions(&self) -> Vec<String> {
         vec!["checked at transaction boundaries only (inside a transaction the uncommitted allocations are not attributed)".into(), "the decoder is a second reading of the format, see DESIGN.md 3.4".into(), "snapshot and page-peek hooks are read-only (hooks H3)".into()]
     }
+    fn fuzz_runs(&self) -> u64 {
+        100_000
+    }
     fn plan(&self, tier: Tier) -> Plan {
         Plan { cases: tier.pick(12_000, 300_000), max_recs: tier.pick(110, 180), max_shrink_iters: 2500, workers: 16 }
     }
@@ -263,6 +266,9 @@ impl Check for C10 {
     }
     fn assumptions(&self) -> Vec<String> {
         vec!["table definition and dynamic collection records are documented only in source comments; the decoder's reading is DESIGN.md Appendix C".into(), "comparators exist for the key types the harness creates (u64, &str, &[u8]) and the four internal key types".into()]
+    }
+    fn fuzz_runs(&self) -> u64 {
+        60_000
     }
     fn plan(&self, tier: Tier) -> Plan {
         Plan { cases: tier.pick(5_000, 120_000), max_recs: tier.pick(110, 170), max_shrink_iters: 2000, workers: 16 }
